@@ -39,8 +39,8 @@ theorem loopish_stackOp (c : Cfg) (ins : Instr) (rest : List Instr) (hc : c.code
     cases a <;> (first | (exfalso; revert hl; simp [Instr.loopish, Act.isStackOp]; done) | skip) <;> simp
 
 theorem step_stack (P : Prog) (c : Cfg) :
-    ((outCfg (step P c)).A.stack, (outCfg (step P c)).A.nextEid) = c.stackAfter ∧
-    schedTr (outCfg (step P c)).tr = c.schedEvs ++ schedTr c.tr := by
+    ((sOutCfg (step P c)).A.stack, (sOutCfg (step P c)).A.nextEid) = c.stackAfter ∧
+    schedTr (sOutCfg (step P c)).tr = c.schedEvs ++ schedTr c.tr := by
   rcases hc : c.code with _ | ⟨ins, rest⟩
   · simp [step_nil P c hc, Cfg.stackAfter, Cfg.stackOp, Cfg.schedEvs, hc]
   · cases hl : ins.loopish
@@ -98,8 +98,8 @@ theorem loopish_scrAfter (c : Cfg) (ins : Instr) (rest : List Instr) (hc : c.cod
     simp [Cfg.scrAfter, Cfg.cbEvs, hc]
 
 theorem step_screens (P : Prog) (c : Cfg) :
-    (∀ i, (outCfg (step P c)).A.scr i = c.scrAfter i) ∧
-    cbLog (outCfg (step P c)).log = c.cbEvs ++ cbLog c.log := by
+    (∀ i, (sOutCfg (step P c)).A.scr i = c.scrAfter i) ∧
+    cbLog (sOutCfg (step P c)).log = c.cbEvs ++ cbLog c.log := by
   rcases hc : c.code with _ | ⟨ins, rest⟩
   · simp [step_nil P c hc, Cfg.scrAfter, Cfg.cbEvs, hc]
   · cases hl : ins.loopish
@@ -147,13 +147,13 @@ theorem step_screens (P : Prog) (c : Cfg) :
 @[simp] theorem suffix_emit_log {l : List Ev} {P : Prog} {e : Ev} {c : Cfg} (h : l <:+ c.log) : l <:+ (c.emit P e).log :=
   (h.trans (List.suffix_cons _ _)).trans (emit_log_suffix P c e)
 @[simp] theorem suffix_startRequest_tr {l : List Tr} {c : Cfg} {ih : Nat} {r : Src} {t : Str} (h : l <:+ c.tr) :
-    l <:+ (outCfg (startRequest c ih r t)).tr :=
+    l <:+ (sOutCfg (startRequest c ih r t)).tr :=
   h.trans (startRequest_tr_suffix c ih r t)
 @[simp] theorem suffix_cons_of {α} {l l' : List α} (a : α) (h : l <:+ l') : l <:+ a :: l' :=
   h.trans (List.suffix_cons _ _)
 
 theorem step_grow (P : Prog) (c : Cfg) :
-    c.tr <:+ (outCfg (step P c)).tr ∧ c.log <:+ (outCfg (step P c)).log := by
+    c.tr <:+ (sOutCfg (step P c)).tr ∧ c.log <:+ (sOutCfg (step P c)).log := by
   rcases hc : c.code with _ | ⟨ins, rest⟩
   · simp [step_nil P c hc]
   · cases hl : ins.loopish
@@ -207,10 +207,10 @@ theorem loopish_retsAfter (c : Cfg) (ins : Instr) (rest : List Instr) (hc : c.co
     simp [Cfg.retSetupAfter, Cfg.retPromptNoneAfter, Cfg.retInputAfter, Cfg.retActionAfter, hc]
 
 theorem step_rets (P : Prog) (c : Cfg) :
-    (outCfg (step P c)).retSetup = c.retSetupAfter ∧
-    (outCfg (step P c)).retPromptNone = c.retPromptNoneAfter ∧
-    ((outCfg (step P c)).retInput, (outCfg (step P c)).retKey) = c.retInputAfter ∧
-    (outCfg (step P c)).retAction = c.retActionAfter := by
+    (sOutCfg (step P c)).retSetup = c.retSetupAfter ∧
+    (sOutCfg (step P c)).retPromptNone = c.retPromptNoneAfter ∧
+    ((sOutCfg (step P c)).retInput, (sOutCfg (step P c)).retKey) = c.retInputAfter ∧
+    (sOutCfg (step P c)).retAction = c.retActionAfter := by
   rcases hc : c.code with _ | ⟨ins, rest⟩
   · simp [step_nil P c hc, Cfg.retSetupAfter, Cfg.retPromptNoneAfter, Cfg.retInputAfter, Cfg.retActionAfter, hc]
   · cases hl : ins.loopish
